@@ -387,6 +387,52 @@ Proof.
   rewrite RD in RD'. inversion RD'; subst es'. unfold restore_of. rewrite (Gr k O). apply G0. exact S.
 Qed.
 
+(* ------------------------------------------------------------------ one failing storage read during the replay *)
+Lemma read_entries_surfaces es : forall pos k, read_entries es pos k = REof \/ read_entries es pos k = ROk es.
+Proof.
+  induction es as [|e es IH]; intros pos k; cbn [read_entries].
+  - destruct (Nat.eqb pos k); auto.
+  - destruct (Nat.leb pos k && Nat.ltb k (pos + entry_reads e))%bool; [left; reflexivity|].
+    destruct (IH (pos + entry_reads e)%nat k) as [-> | ->]; auto.
+Qed.
+
+Theorem wal_read_fault_surfaces content after s k :
+  wal_read_fault content after s k = REof \/ wal_read_fault content after s k = wal_read content after.
+Proof.
+  unfold wal_read_fault. destruct (wal_read content after) as [| |es]; auto.
+  destruct (Nat.ltb k s); [left; reflexivity|]. apply read_entries_surfaces.
+Qed.
+
+(* a restore during which one read of the checkpoint's WAL fails either does not return a database or returns the exact one *)
+Definition restore_under_fault (d : dbc) (o : own) (mem wm : N) (s k : nat) : option dbc :=
+  match wal_read_fault (cp_wal (snd (db_checkpoint d))) (cp_after (snd (db_checkpoint d))) s k with
+  | ROk es => Some (restore_of d o mem wm es)
+  | _ => None
+  end.
+
+Theorem restore_fault_exact d o mem wm s k : reachc d ->
+  restore_under_fault d o mem wm s k = None \/
+  exists r, restore_under_fault d o mem wm s k = Some r /\ reachc r /\ forall key, owns o key = true -> db_get r key = db_get d key.
+Proof.
+  intro RC. unfold restore_under_fault.
+  destruct (wal_read_fault_surfaces (cp_wal (snd (db_checkpoint d))) (cp_after (snd (db_checkpoint d))) s k) as [-> | ->]; [left; reflexivity|].
+  destruct (checkpoint_exact_dbc d o mem wm RC) as [es [RD [RCr G]]]. cbn zeta in *. rewrite RD. right.
+  exists (restore_of d o mem wm es). split; [reflexivity|]. split; assumption.
+Qed.
+
+(* the reader of seeded change C08r6-3 (any failed sequence-number read ends the log) is NOT of that kind: a witness *)
+Fixpoint read_entries_lossy (es : list entry) (pos k : nat) : replay_res :=
+  match es with
+  | [] => ROk []
+  | e :: es' => if Nat.eqb pos k then ROk []
+                else if (Nat.ltb pos k && Nat.ltb k (pos + entry_reads e))%bool then REof
+                else match read_entries_lossy es' (pos + entry_reads e) k with ROk l => ROk (e :: l) | r => r end
+  end.
+Lemma lossy_reader_loses :
+  let es := [mkE [0;0;97] 1 false [49]; mkE [0;0;98] 2 false [50]] in
+  read_entries_lossy es 1 7 = ROk [mkE [0;0;97] 1 false [49]] /\ read_entries es 1 7 = REof.
+Proof. vm_compute. split; reflexivity. Qed.
+
 (* ------------------------------------------------------------------ a concrete history (non-vacuity) *)
 Module Ex.
   Definition ka : bytes := [0; 0; 97].
